@@ -292,6 +292,8 @@ class Discharger:
                             if sb and ((sb[0] == a and sb[1] == "Lt" and truth) or (sb[0] == a and sb[1] == "Ge" and not truth)
                                        or (sb[2] == a and sb[1] == "Gt" and truth) or (sb[2] == a and sb[1] == "Le" and not truth)):
                                 return ("CMP-DOM", "%s is strictly below another %s value (bb%d), so +1 cannot overflow" % (a, ty, g))
+                if cb == 1 and self._get_some(fn, S, facts, a):
+                    return ("GET-SOME", "%s indexes an existing element (slice::get returned Some on this path), so it is below the length and +1 cannot overflow" % a)
                 return self._interval(fn, t, "add") or self._affine(fn, S, facts, mops, "add")
             if msg == "BoundsCheck":
                 ln, ix = S.val(mops[0]), S.val(mops[1])
@@ -356,6 +358,21 @@ class Discharger:
                 return ("CONST-UUID", "argument is the well-formed UUID literal %s" % m.group(1))
             return None
         return None
+
+    def _get_some(self, fn, S, facts, ix):
+        """a dominating fact says `<[T]>::get(_, ix)` (or Vec::get) was Some: directly, or through the Continue edge of `?`"""
+        for (e, truth, g) in facts:
+            if isinstance(truth, bool):
+                continue
+            m = re.fullmatch(r"discr\(call@(\d+):<std::option::Option<T> as std::ops::Try>::branch\)", e)
+            inner = None
+            if m and truth == ("==", 0):
+                inner = S.val(fn.blocks[int(m.group(1))]["term"]["args"][0])
+            elif truth == ("==", 1) and e.startswith("discr(") and "::get(" in e:
+                inner = e[6:-1]
+            if inner and re.search(r"(<impl \[T\]>|Vec::<T, A>)::get\(.*,%s\)$" % re.escape(ix), inner):
+                return True
+        return False
 
     def _affine(self, fn, S, facts, mops, what):
         """both operands affine in one variable whose interval the dominating facts give (comparisons with constants, range patterns,
